@@ -84,6 +84,17 @@ func FieldsFromStruct(t reflect.Type) TypesTable {
 
 			types[f.Name] = Tag{Type: f.Type}
 		}
+
+		// Names that came in through embedded structs are resolved by the rule
+		// of Go itself: the field at the shallowest depth wins, whatever the order
+		// of declaration is, and only names at the same depth are ambiguous.
+		for name := range types {
+			if f, ok := t.FieldByName(name); ok {
+				types[name] = Tag{Type: f.Type}
+			} else {
+				types[name] = Tag{Ambiguous: true}
+			}
+		}
 	}
 
 	return types
